@@ -6,12 +6,12 @@ use serde_json::{json, Value};
 use std::io::{BufRead, Write};
 use std::panic::{catch_unwind, AssertUnwindSafe};
 
+#[path = "ops_index.rs"]
+mod ops_index;
 #[path = "tables.rs"]
 mod tables;
 #[path = "traced.rs"]
 pub mod traced;
-#[path = "ops_index.rs"]
-mod ops_index;
 
 fn panic_msg(e: Box<dyn std::any::Any + Send>) -> String {
 	if let Some(s) = e.downcast_ref::<&str>() {
